@@ -39,8 +39,22 @@ fn codecs() -> Vec<CodecDesc> {
     ]
 }
 
+/// one frame as a case; so that the boundary stream is not single-chunk only, every 5th case arrives in two reads
+/// (split in the middle, or inside the header) and every 11th byte by byte (short frames)
 fn case(kind: &str, desc: &CodecDesc, frame: &[u8]) -> String {
-    format!("({} {} (chunks {}))", kind, desc.term(), hex(frame))
+    use std::sync::atomic::{AtomicUsize, Ordering};
+    static N: AtomicUsize = AtomicUsize::new(0);
+    let n = N.fetch_add(1, Ordering::Relaxed);
+    let chunks: Vec<Vec<u8>> = if n % 11 == 10 && frame.len() <= 48 {
+        frame.iter().map(|b| vec![*b]).collect()
+    } else if n % 5 == 4 && frame.len() >= 2 {
+        let k = if n % 10 == 4 { frame.len() / 2 } else { 18.min(frame.len() - 1) };
+        vec![frame[..k].to_vec(), frame[k..].to_vec()]
+    } else {
+        vec![frame.to_vec()]
+    };
+    let v: Vec<String> = chunks.iter().map(|c| hex(c)).collect();
+    format!("({} {} (chunks {}))", kind, desc.term(), v.join(" "))
 }
 
 /// UPDATE = ORIGIN, AS_PATH(empty) [, NEXT_HOP], the attribute under test, optional legacy NLRI
@@ -268,6 +282,98 @@ pub fn boundary_cases() -> Vec<String> {
             }
         }
     }
+    // ---- capability VALUES: every capability arm with every capability length 0..=251 (cap / parameter lengths
+    //      consistent, three fill patterns), then the FQDN-internal length octets and the tuple values of ADD-PATH,
+    //      graceful restart, LLGR and extended next hop
+    {
+        let desc = codecs().remove(0);
+        let fixed: Vec<Vec<u8>> = vec![vec![4], vec![0xfd, 0xe9], vec![0, 90], vec![10, 0, 0, 1]];
+        let fx = cat(&fixed);
+        let one = |out: &mut Vec<String>, code: u8, cap_len: usize, val: &[u8]| {
+            let mut c = vec![code, cap_len as u8];
+            c.extend_from_slice(val);
+            if c.len() + 2 <= 255 {
+                out.push(case("bgp", &desc, &open_frame(&fx, &c, None, None)));
+            }
+        };
+        for code in [1u8, 2, 5, 6, 64, 65, 69, 70, 71, 73, 200] {
+            for l in 0usize..=251 {
+                for pat in 0..3 {
+                    let val: Vec<u8> = (0..l).map(|i| match pat { 0 => 0u8, 1 => 0xff, _ => (i as u8).wrapping_mul(7).wrapping_add(1) }).collect();
+                    one(&mut out, code, l, &val);
+                }
+            }
+        }
+        // FQDN: host length x domain length x capability length, bytes present or not
+        for cap_len in [2usize, 3, 4, 5, 10, 250, 251] {
+            for hostlen in [0usize, 1, 2, 3, 8, 247, 248, 249, 250, 251, 252, 253, 254, 255] {
+                for domlen in [0usize, 1, 2, 5, 247, 248, 249, 250, 251, 252, 253, 254, 255] {
+                    let mut val = vec![hostlen as u8];
+                    val.extend(std::iter::repeat(b'h').take(hostlen));
+                    val.push(domlen as u8);
+                    val.extend(std::iter::repeat(b'd').take(domlen));
+                    val.resize(cap_len, b'x');
+                    one(&mut out, 73, cap_len, &val);
+                }
+            }
+        }
+        // ADD-PATH / GR / LLGR / extended next hop: tuple contents
+        for v in [0u8, 1, 2, 3, 4, 255] {
+            for (afi, safi) in [(1u16, 1u8), (2, 1), (1, 128), (25, 70), (0, 0), (65535, 255)] {
+                let a = afi.to_be_bytes();
+                one(&mut out, 69, 4, &[a[0], a[1], safi, v]);
+                one(&mut out, 69, 8, &[0, 1, 1, 3, a[0], a[1], safi, v]);
+                one(&mut out, 64, 6, &[0x80 | (v & 0xf), 120, a[0], a[1], safi, v]);
+                one(&mut out, 71, 7, &[a[0], a[1], safi, v, v, v, v]);
+                one(&mut out, 5, 6, &[a[0], a[1], 0, safi, 0, v]);
+                one(&mut out, 5, 12, &[0, 1, 0, 1, 0, 2, a[0], a[1], 0, safi, a[0], a[1]]);
+            }
+        }
+    }
+    // ---- attribute sub-structure VALUES (both AS widths): AS_PATH / AS4_PATH segment type and count octets against the
+    //      number of AS numbers present; AIGP TLV lengths; the attribute types with canonical flags that carry opaque
+    //      bodies (TUNNEL_ENCAP 23, BGP-LS 29, PREFIX_SID 40) and every known type under every flag class, short and
+    //      extended length
+    for desc in codecs().into_iter().take(2) {
+        let w = if desc.two { 2usize } else { 4 };
+        for (code, fl, width) in [(2u8, 0x40u8, w), (17, 0xc0, 4)] {
+            for st in [0u8, 1, 2, 3, 4, 5, 255] {
+                for cnt in [0usize, 1, 2, 3, 127, 128, 254, 255] {
+                    for have in [0usize, 1, 2, 3, 254, 255] {
+                        if have > 3 && have != cnt {
+                            continue;
+                        }
+                        let mut v = vec![st, cnt as u8];
+                        v.extend((0..have * width).map(|i| (i % 251) as u8 + 1));
+                        out.push(case("bgp", &desc, &upd_with(fl, code, &v, None, true)));
+                        // followed by a second, valid segment
+                        let mut v2 = v.clone();
+                        v2.extend_from_slice(&[2, 1]);
+                        v2.extend(std::iter::repeat(9u8).take(width));
+                        out.push(case("bgp", &desc, &upd_with(fl, code, &v2, None, true)));
+                    }
+                }
+            }
+        }
+        for l in [0usize, 1, 2, 3, 4, 10, 11, 12, 255, 256, 65535] {
+            for body in [0usize, 1, 8, 9] {
+                let mut v = vec![1u8, (l >> 8) as u8, l as u8];
+                v.extend(std::iter::repeat(7u8).take(body));
+                out.push(case("bgp", &desc, &upd_with(0x80, 26, &v, None, true)));
+                let mut v2 = v.clone();
+                v2.extend_from_slice(&[2, 0, 3]);
+                out.push(case("bgp", &desc, &upd_with(0x80, 26, &v2, None, true)));
+            }
+        }
+        for code in [1u8, 2, 3, 4, 5, 6, 7, 8, 9, 10, 16, 17, 18, 23, 26, 29, 32, 40, 0, 11, 22, 30, 99, 128, 255] {
+            for fl in [0x00u8, 0x40, 0x80, 0xc0, 0x20, 0x60, 0xa0, 0xe0, 0x50, 0x90, 0xd0, 0x4f] {
+                for l in [0usize, 1, 3, 4, 6, 8, 12, 255, 256, 300] {
+                    let v: Vec<u8> = (0..l).map(|i| (i % 3) as u8).collect();
+                    out.push(case("bgp", &desc, &upd_with(fl, code, &v, None, true)));
+                }
+            }
+        }
+    }
     // ---- the other families (hypothesis-backed decoders, impl-only): header boundaries and every byte of each seed NLRI
     let d0 = CodecDesc { ext: false, two: false, fams: vec![] };
     for (afi, safi, dir, nl) in &seeds {
@@ -306,6 +412,116 @@ pub fn boundary_cases() -> Vec<String> {
                     let mut v = head.clone();
                     v.extend_from_slice(&nlri[..k]);
                     out.push(case(xtag, &desc, &upd_with(0x80, 15, &v, None, false)));
+                }
+            }
+        }
+    }
+    // ---- MUP and BGP-LS (still outside the model, impl-only): inner length / type octets.
+    //      (1) every byte of every seed poked with boundary values; MUP body cut with the body-length octet consistent;
+    //      (2) BGP-LS built from parts: every NLRI type (1-4, 6 = SRv6 SID, 5 and 99 unknown) x every descriptor TLV that
+    //          has a length guard in ls.rs, value lengths around the guard, declared TLV length consistent / one more /
+    //          0xffff, the TLV placed after the node descriptors and inside the local node descriptor
+    {
+        let wrap = |afi: u16, safi: u8, nlri: &[u8], reach: bool| -> String {
+            let desc = CodecDesc { ext: true, two: false, fams: vec![(1, 1, false), (afi, safi, false)] };
+            let mut v = afi.to_be_bytes().to_vec();
+            v.push(safi);
+            if reach {
+                let nhl = if afi == 2 { 16 } else { 4 };
+                v.push(nhl as u8);
+                v.extend(nh_bytes(nhl));
+                v.push(0);
+            }
+            v.extend_from_slice(nlri);
+            case(if modelled_family(afi, safi) { "bgp" } else { "xbgp" }, &desc, &upd_with(0x80, if reach { 14 } else { 15 }, &v, None, false))
+        };
+        let pokes = [0u8, 1, 2, 3, 4, 5, 6, 7, 8, 9, 15, 16, 17, 31, 32, 33, 63, 64, 65, 127, 128, 129, 254, 255];
+        for (afi, safi, _dir, nl) in seeds.iter().filter(|s| !modelled_family(s.0, s.1)) {
+            for i in 0..nl.len() {
+                for v in pokes {
+                    if nl[i] != v {
+                        let mut m = nl.clone();
+                        m[i] = v;
+                        out.push(wrap(*afi, *safi, &m, true));
+                    }
+                }
+            }
+            if *safi == 85 && nl.len() >= 4 {
+                for rt in 0u16..=5 {
+                    for bl in 0..=(nl.len() - 4) {
+                        let mut m = vec![nl[0], (rt >> 8) as u8, rt as u8, bl as u8];
+                        m.extend_from_slice(&nl[4..4 + bl]);
+                        out.push(wrap(*afi, *safi, &m, true));
+                        out.push(wrap(*afi, *safi, &m, false));
+                    }
+                }
+            }
+        }
+        let tlv = |t: u16, declared: usize, v: &[u8]| -> Vec<u8> {
+            let mut b = t.to_be_bytes().to_vec();
+            b.extend_from_slice(&(declared as u16).to_be_bytes());
+            b.extend_from_slice(v);
+            b
+        };
+        let guarded: [(u16, usize); 17] = [
+            (258, 8), (259, 4), (260, 4), (261, 16), (262, 16), (263, 2), (264, 1), (265, 1), (518, 20),
+            (512, 4), (513, 4), (514, 4), (515, 4), (516, 4), (517, 4), (256, 0), (999, 0),
+        ];
+        let node = |container: u16, extra: &[u8]| -> Vec<u8> {
+            let mut inner = tlv(512, 4, &65001u32.to_be_bytes());
+            inner.extend(tlv(515, 4, &[10, 0, 0, 1]));
+            inner.extend_from_slice(extra);
+            tlv(container, inner.len(), &inner)
+        };
+        for typ in [1u16, 2, 3, 4, 5, 6, 99] {
+            for (t, g) in guarded {
+                let mut ls: Vec<usize> = vec![0, 1, g.saturating_sub(1), g, g + 1, g + 3];
+                ls.sort();
+                ls.dedup();
+                for l in ls {
+                    let val: Vec<u8> = (0..l).map(|i| if t == 265 && i == 0 { 24 } else { i as u8 + 1 }).collect();
+                    for decl in [l, l + 1, 0xffff] {
+                        let x = tlv(t, decl, &val);
+                        for inside in [false, true] {
+                            let mut body = vec![2u8];
+                            body.extend_from_slice(&7u64.to_be_bytes());
+                            body.extend(node(256, if inside { &x } else { &[] }));
+                            if typ == 2 {
+                                body.extend(node(257, &[]));
+                            }
+                            if !inside {
+                                body.extend_from_slice(&x);
+                            }
+                            let mut n = typ.to_be_bytes().to_vec();
+                            n.extend_from_slice(&(body.len() as u16).to_be_bytes());
+                            n.extend_from_slice(&body);
+                            out.push(wrap(16388, 71, &n, true));
+                        }
+                    }
+                }
+            }
+            // bodies shorter than the fixed part, and a body without / with a wrong first descriptor
+            for bl in 0usize..=12 {
+                let mut n = typ.to_be_bytes().to_vec();
+                n.extend_from_slice(&(bl as u16).to_be_bytes());
+                n.extend(std::iter::repeat(1u8).take(bl));
+                out.push(wrap(16388, 71, &n, true));
+            }
+        }
+        // IP reachability: prefix length octet against the bytes present
+        for plen in [0u8, 1, 8, 24, 32, 33, 128, 129, 255] {
+            for have in [0usize, 1, 3, 4, 16, 17, 31, 32] {
+                let mut val = vec![plen];
+                val.extend(std::iter::repeat(9u8).take(have));
+                let mut body = vec![2u8];
+                body.extend_from_slice(&7u64.to_be_bytes());
+                body.extend(node(256, &[]));
+                body.extend(tlv(265, val.len(), &val));
+                for typ in [3u16, 4] {
+                    let mut n = typ.to_be_bytes().to_vec();
+                    n.extend_from_slice(&(body.len() as u16).to_be_bytes());
+                    n.extend_from_slice(&body);
+                    out.push(wrap(16388, 71, &n, true));
                 }
             }
         }
